@@ -34,7 +34,8 @@ class RuleSet:
 
     # -- flex side ----------------------------------------------------------
     def to_lex(self, rng, action=lambda i: ';', prologue='', epilogue='', use_scopes=True,
-               vary=True, extra_options=()):
+               vary=True, extra_options=(), pct_actions=True):
+        self._pct_actions = pct_actions      # (False for the c99 back end: known finding F67)
         pr = patgen.Printer(rng, posix_prec=self.posix_prec, vary=vary)
         lines2 = []
         self._rule_pos = {}
@@ -94,6 +95,31 @@ class RuleSet:
             ln += l.count('\n')
         return text
 
+    def expected_var_rules(self):
+        """rule numbers flex may treat as *variable* trailing context rules: head and trailing part both
+        of variable length in flex's syntactic sense (any of | * + ? {} in it, parse.y `varlength`), or
+        any trailing context (r/s, r$) right after a '|' action"""
+        def synvar(p):
+            k = p[0]
+            if k in ('alt', 'star', 'plus', 'opt', 'rep'):
+                return True
+            if k == 'cat':
+                return synvar(p[1]) or synvar(p[2])
+            if k == 'grp':
+                return synvar(p[5])
+            if k == 'ref':
+                return synvar(p[2])
+            return False
+        out = set()
+        for i, r in enumerate(self.rules):
+            has_trail = r.get('trail') is not None or r.get('dollar')
+            if not has_trail:
+                continue
+            after_chain = i > 0 and self.rules[i - 1].get('chain')
+            if after_chain or (r.get('trail') is not None and synvar(r['head']) and synvar(r['trail'])):
+                out.add(i + 1)
+        return out
+
     def _scprefix(self, r):
         if r['all']:
             return '<*>'
@@ -104,6 +130,8 @@ class RuleSet:
     def _rule_line(self, pr, r, pre, act):
         if r.get('chain'):
             act = '|'
+        elif pr.vary and getattr(self, '_pct_actions', True) and '\n' not in act and '%}' not in act and pr.rng.random() < 0.12:
+            act = '%{ ' + act + ' %}'          # the other spelling of an action
         s = pre + ('^' if r['bol'] else '') + pr.pr(r['head'], 0)
         if r.get('dollar'):
             s += '$'
